@@ -228,6 +228,7 @@ func runProperty(repo, verif, cmd, id, tier string, verbose bool, filter string,
 	nClaimed, nDischarged := 0, 0
 	var unclaimed []oblReport
 	var boundedUndecided []string
+	var solverErrs []string
 	solverTime := map[string]float64{}
 	seen := map[string]bool{}
 	machineryErr := 0
@@ -312,6 +313,16 @@ func runProperty(repo, verif, cmd, id, tier string, verbose bool, filter string,
 				reports = reports[:len(reports)-1]
 				continue
 			}
+			if j.res.Status == "error" {
+				// the solvers rejected the query (ill-sorted term, resource failure): a fault of the
+				// machinery, not a verdict about the code - undecided, never a violation
+				machineryErr++
+				fmt.Printf("MACHINERY: solver error on %s\n", full)
+				nClaimed--
+				reports = reports[:len(reports)-1]
+				solverErrs = append(solverErrs, full)
+				continue
+			}
 			if boundedFn[j.fr.Key] && j.res.Status != "sat" {
 				// bounded exploration and no counterexample inside the bound: undecided, not a violation
 				nClaimed--
@@ -349,6 +360,9 @@ func runProperty(repo, verif, cmd, id, tier string, verbose bool, filter string,
 			fmt.Printf("UNDECIDED %s: %s; the unwinding assertion does not discharge, so the function was explored up to that bound only\n", fr.Key, strings.Join(fr.Bounded, "; "))
 			undecided = append(undecided, fr.Key+": bounded: "+strings.Join(fr.Bounded, "; "))
 		}
+	}
+	for _, n := range solverErrs {
+		undecided = append(undecided, "solver error (machinery fault): "+n)
 	}
 	if cmd == "check" {
 		// claimed obligations that no longer exist (function undecided, renamed, removed)
